@@ -1,5 +1,6 @@
 import GeoVerif.Corr.Proto
 import GeoVerif.Model.Conic
+import GeoVerif.Corr.C11Kernels
 /-!
 Correspondence for C11: the polymorphic models of `Model/Conic.lean` run in native binary64 against the implementation.
 Tolerances are a few ulp of the result, widened by the model's own sensitivity to a one-ulp change of an intermediate
@@ -134,6 +135,6 @@ def handle (op : String) (args res : List String) : Option Verdict :=
     | _, _, _ => .bad "parse"
   | "pt" => some (.skip "closed forms, closures, conformality / equal-area and wrap laws are judged by the harness on the implementation")
   | "cfgprops" => some (.skip "configuration-level oracles are judged by the harness on the implementation")
-  | _ => none
+  | _ => C11K.handleK op args res
 
 end GeoVerif.Corr.C11
